@@ -25,6 +25,8 @@ func runC10(p *core.Prog, r *core.Report) {
 	c10Commitments(c)
 	c10ProverTotality(c)
 	c10HashTotality(c)
+	c10NoProofMutation(c)
+	c10WitnessDomain(c)
 }
 
 func c10Transcripts(c *ctx) {
